@@ -182,6 +182,13 @@ def check(prop, ev, bounds=None, cvc5_cross=False):
             fns = sorted(set(fns) | set(mf))
         except Unencodable as e:
             inconc.append(f"unencodable (assignment simulation lemma): {e}")
+        try:
+            import typeflowlemmas
+            fo, ff = typeflowlemmas.function_call(S, bounds or {"block": 3, "array": 2})
+            obls = obls + fo
+            fns = sorted(set(fns) | set(ff))
+        except Unencodable as e:
+            inconc.append(f"unencodable (FunctionCall type-state flow lemma): {e}")
     ev.cov["functions_encoded"] = [f"{n} [mir sha256:{h}]" for n, h in fns]
     ev.cov["node_stats"] = stats
     ev.cov["expression_impls_audited"] = found
@@ -222,6 +229,12 @@ def check(prop, ev, bounds=None, cvc5_cross=False):
             if ":stdlib::" in role and not role.startswith("C17:"):
                 import driverlemmas
                 res = [(a, b, {}) for a, b in driverlemmas.battery()]
+            elif role.endswith(":closure-body-effects-reach-the-state"):
+                import typeflowlemmas
+                res = [(a, b, {}) for a, b in typeflowlemmas.closure_battery()]
+            elif role.endswith(":state-follows-the-runtime-paths"):
+                import typeflowlemmas
+                res = [(a, b, {}) for a, b in typeflowlemmas.battery()]
             elif role.endswith(":recorded-constant-is-the-stored-value"):
                 import simlemmas
                 res = [(a, b, {}) for a, b in simlemmas.battery()]
